@@ -81,7 +81,15 @@ def build_model(rng, idx: int, n_funcs: int):
         rd = rng.random() < 0.7
         h, d = pick_pair(rng, rng.random() < 0.5)
         result = {"hint": h if rh else None, "doc": d if rd else None}
-        funcs.append({"name": f"fn{idx}x{j}", "method": rng.random() < 0.3, "params": params, "result": result})
+        f = {"name": f"fn{idx}x{j}", "method": rng.random() < 0.3, "params": params, "result": result}
+        if rng.random() < 0.3:
+            # tuple hint + one docstring entry per position, each position equal or different on its own
+            k = rng.randint(2, 3)
+            f["multi"] = []
+            for q in range(k):
+                h, d = pick_pair(rng, rng.random() < 0.5)
+                f["multi"].append({"name": f"r{q}", "hint": h, "doc": d})
+        funcs.append(f)
     return funcs
 
 
@@ -94,6 +102,8 @@ def adapt(funcs, style: str, gated: set):
 
     out = copy.deepcopy(funcs)
     for f in out:
+        if style != "numpydoc":
+            f.pop("multi", None)
         if style == "rest" and "doc:type:param-hint-and-doc-differ@rest" in gated:
             for p in f["params"]:
                 if p["hint"] and p["doc"] and p["hint"] != p["doc"]:
@@ -115,6 +125,10 @@ def render_module(funcs, style: str) -> str:
         sig = ", ".join(p["name"] + (f": {p['hint']}" if p["hint"] else "") for p in f["params"])
         ret = f" -> {f['result']['hint']}" if f["result"]["hint"] else ""
         doc = render_doc(style, f"Summary of {f['name']}.", [(p["name"], p["doc"]) for p in f["params"]], f["result"]["doc"])
+        if f.get("multi"):
+            ret = " -> tuple[" + ", ".join(r["hint"] for r in f["multi"]) + "]"
+            doc = render_doc(style, f"Summary of {f['name']}.", [(p["name"], p["doc"]) for p in f["params"]], None)
+            doc += "\nReturns\n-------\n" + "".join(f"{r['name']} : {r['doc']}\n    Part.\n" for r in f["multi"])
         if f["method"]:
             body = "".join("        " + ln + "\n" if ln else "\n" for ln in doc.split("\n")[:-1])
             out.append(f"class Holder_{f['name']}:\n    def {f['name']}(self, {sig}){ret}:\n        \"\"\"{body[8:]}        \"\"\"\n        ...\n\n\n")
@@ -197,6 +211,16 @@ def make_judge(chk: Check):
             where = f"result:{pref}:{combo}"
             got = [tt.stub_nf(x.type) for x in d.results]
             enf = [tt.ref_nf(exp)] if exp else []
+            if f.get("multi"):
+                enf = [tt.ref_nf(expected_type(x, pref)) for x in f["multi"]]
+                where = f"results:{pref}:" + "".join("e" if x["hint"] == x["doc"] else "d" for x in f["multi"])
+                r = {"hint": [x["hint"] for x in f["multi"]], "doc": [x["doc"] for x in f["multi"]]}
+                if any(x["hint"] != x["doc"] for x in f["multi"]):
+                    exp_result_warn.add(fid)
+                if got != enf:
+                    viols.append(Viol("wrong-type-source", where, {"function": f["name"], "hint": r["hint"], "docstring_type": r["doc"], "stub": [x.type.render() if x.type else None for x in d.results], "style": style}))
+                chk.case_ok(f"{style}:{where}")
+                continue
             if got != enf:
                 viols.append(Viol("wrong-type-source", where, {"function": f["name"], "hint": r["hint"], "docstring_type": r["doc"], "stub": [x.type.render() if x.type else None for x in d.results], "style": style}))
             if r["hint"] and r["doc"] and r["hint"] != r["doc"]:
